@@ -114,6 +114,7 @@ fn seq_oracle() -> SeqOracle {
             let state = match b.entry(k) {
                 None => "absent",
                 Some(e) if e.4 => "soft-deleted",
+                Some(_) if passed_over_by_its_sweep(run, i, k) => "expired-and-passed-over-by-its-sweep",
                 Some(_) => "expired-unswept",
             };
             let weight = w.unwrap_or_else(|| weight_fn_of(&run.setup, k, ttl.is_some()));
@@ -165,7 +166,7 @@ fn seq_spec(ctx: &Ctx, shards: usize) -> SeqSpec {
         world: Default::default(),
         prefix: vec![],
         alphabet,
-        depth: if ctx.quick() { 5 } else { 5 },
+        depth: if ctx.quick() { 7 } else { 9 },
         allow: Some(Arc::new(|_h, present, a| match a {
             Op::Upsert { k, value: false, .. } => present.contains(k),
             _ => true,
@@ -173,7 +174,7 @@ fn seq_spec(ctx: &Ctx, shards: usize) -> SeqSpec {
         oracle: seq_oracle(),
         keys: vec![1],
         canon_sketch: false,
-        ghost_key: None,
+        ghost_key: Some(passed_over_key(vec![1])),
         max_states: 2_000_000,
         time_cap_s: if ctx.quick() { 25.0 } else { 600.0 },
     }
@@ -283,9 +284,6 @@ pub fn def(ctx: &Ctx) -> PropertyDef {
     let workers = ctx.workers;
     let mut scenarios: Vec<Scenario> = Vec::new();
     for shards in [2usize, 4] {
-        if quick && shards == 4 {
-            continue;
-        }
         let name = seq_spec(ctx, shards).name;
         scenarios.push(seq_scenario(move |c| seq_spec(c, shards), &name));
     }
